@@ -252,15 +252,19 @@ theorem C17_compact_no_panic (s : CState) (thr : Nat) (h : compactLocal s thr = 
   compactLocal_eq_none h
 
 /-- The production compaction threshold (`gossip.go: compactThreshold`), regenerated from
-the Go source on every check. -/
-theorem C17_facts_compactThreshold : Facts.compactThreshold = some 100 := by decide
+the Go source on every check, is a positive constant (100 on the pinned tree; its value is a
+tuning knob no clause of the property depends on, its being non-zero is what excludes the
+panic). -/
+theorem C17_facts_compactThreshold : ∃ thr, Facts.compactThreshold = some thr ∧ 0 < thr := by decide
 
 /-- With the production threshold `CompactLocal` returns in every state. -/
 theorem C17_compact_no_panic_production (s : CState) (thr : Nat)
     (hthr : Facts.compactThreshold = some thr) : (compactLocal s thr).isSome = true := by
-  rw [C17_facts_compactThreshold] at hthr
-  cases hthr
-  cases h : compactLocal s 100 with
+  obtain ⟨t, ht, hpos⟩ := C17_facts_compactThreshold
+  rw [ht] at hthr
+  have hEq : t = thr := Option.some.inj hthr
+  subst hEq
+  cases h : compactLocal s t with
   | some _ => rfl
   | none => have := (compactLocal_eq_none h).2; omega
 
